@@ -48,11 +48,78 @@ def gen_history(rng, big):
     return style, ops
 
 
+def respell(rng, ops):
+    """Choose how the caller spells the time arguments of a generated history (the values stay the same).
+    Returns (spelling style, ops).  'float': as generated.  'mixed': every call draws from all spellings.
+    'arrays': fresh 0-d / 1-element arrays everywhere.  'running0d' / 'running1d': ONE caller-owned array that is
+    overwritten in place before each evolve_until (and some add_callback) - the time-stepping-loop idiom."""
+    sp = ['float', 'float', 'mixed', 'mixed', 'arrays', 'running0d', 'running1d'][int(rng.integers(0, 7))]
+    if sp == 'float':
+        return sp, ops
+    out = []
+    if rng.random() < 0.4:
+        out.append(('mode', 'clockobj'))
+    for op in ops:
+        if op[0] not in ('add', 'evolve'):
+            out.append(op)
+            continue
+        if sp == 'mixed':
+            how = SPELLINGS[int(rng.integers(0, len(SPELLINGS)))]
+        elif sp == 'arrays':
+            how = ('0d', '1d')[int(rng.integers(0, 2))]
+        else:
+            own = '0ds' if sp == 'running0d' else '1ds'
+            how = own if op[0] == 'evolve' or rng.random() < 0.3 else ('f', 'np', 'i', own[:2])[int(rng.integers(0, 4))]
+        out.append(tuple(op) + (how,))
+    return sp, out
+
+
 # ---------------------------------------------------------------------------------------------
 # the real code
 
+SPELLINGS = ('f', 'i', 'ni', 'np', '0d', '1d', '0ds', '1ds')
+
+
+def fl(x):
+    """The value of a time object (float/int/NumPy scalar/0-d or 1-element array) as a Python float."""
+    import numpy as np
+    return float(np.asarray(x, dtype=float).reshape(-1)[0])
+
+
+def spell(x, how, shared):
+    """The time `x` (a float) in the spelling `how`.  Returns (object handed to hcipy, the caller-owned mutable
+    array inside it or None).  'i'/'ni' fall back to float when x is not integral; '0ds'/'1ds' reuse ONE array per
+    history that the caller overwrites in place before every call (the `t += dt; evolve_until(t)` idiom)."""
+    import numpy as np
+    x = float(x)
+    if how == 'i' and x.is_integer():
+        return int(x), None
+    if how == 'ni' and x.is_integer():
+        return np.int64(int(x)), None
+    if how == 'np':
+        return np.float64(x), None
+    if how == '0d':
+        a = np.array(x)
+        return a, a
+    if how == '1d':
+        a = np.array([x])
+        return a, a
+    if how in ('0ds', '1ds'):
+        a = shared.setdefault(how, np.array(0.0) if how == '0ds' else np.array([0.0]))
+        a[...] = x
+        return a, a
+    return x, None
+
+
 def run_real(ops):
-    """Execute a history on hcipy's DynamicOpticalSystem.  Returns per-evolve observations."""
+    """Execute a history on hcipy's DynamicOpticalSystem.  Returns per-evolve observations.
+
+    ops: ('kids', id, [(delay, child)]) | ('add', t, id[, spelling]) | ('evolve', T[, spelling]) | ('mode', 'clockobj').
+    Times are handed over in the given spelling; when that is a caller-owned array the caller MUTATES it in place
+    right after the call (a snapshot of clock and queue, as floats, is taken before and after the mutation: the
+    time arguments are values, so nothing may move).  In mode 'clockobj' a callback that schedules a child for its own
+    instant passes the system's clock object `self.t` itself back into add_callback.  Everything recorded is a float
+    taken at the moment of the observation."""
     import hcipy
 
     class Sys(hcipy.DynamicOpticalSystem):
@@ -61,21 +128,67 @@ def run_real(ops):
             self.events = []
 
         def integrate(self, dt):
-            self.events.append(('I', dt))
+            self.events.append(('I', fl(dt)))
 
     s = Sys()
     kids = {}
     scheduled = []     # every add_callback: (time, ctr, id)
+    mode = set()
+    shared = {}
+    alias = []         # (key, what) found since the last evolve
+    npoison = [0]
 
-    def add(t, cid):
+    def snap():
+        return (fl(s.t), sorted((fl(q[0]), q[1]) for q in s.callbacks))
+
+    def moved(before, after, call):
+        """clause: a caller's in-place change of ITS OWN array must not reach the system (key by what moved)"""
+        if before[0] != after[0]:
+            alias.append(('clock-aliases-caller-object', '%s the caller changed its own time array in place and the '
+                          "system's clock moved with it: %r -> %r" % (call, before[0], after[0])))
+        if before[1] != after[1]:
+            alias.append(('queue-aliases-caller-object', '%s the caller changed its own time array in place and the queued '
+                          'times moved with it: %r -> %r' % (call, [q[0] for q in before[1]][:4], [q[0] for q in after[1]][:4])))
+
+    def poison(arr, call):
+        """the caller goes on using ITS array: advance it a little, a lot, or rewind it"""
+        before = snap()
+        k = npoison[0]
+        npoison[0] += 1
+        if k % 3 == 0:
+            arr += 0.5
+        elif k % 3 == 1:
+            arr += 1024.5
+        else:
+            arr[...] = -3.5
+        moved(before, snap(), 'after ' + call)
+
+    def spelled(x, how):
+        """`spell`, observing that overwriting the caller's shared array for the next call moves nothing either"""
+        before = snap()
+        arg, mut = spell(x, how, shared)
+        if how in ('0ds', '1ds'):
+            moved(before, snap(), 'preparing the next call (overwriting its running-time array with %r)' % float(x))
+        return arg, mut
+
+    def add(t, cid, how='f', obj=None):
         ctr = s.callback_counter
         scheduled.append((t, ctr, cid))
 
         def cb():
-            s.events.append(('F', t, ctr, cid, s.t))
+            s.events.append(('F', t, ctr, cid, fl(s.t)))
             for d, child in kids.get(cid, []):
-                add(t + d, child)
-        s.add_callback(t, cb)
+                if 'clockobj' in mode and d == 0 and fl(s.t) == t:
+                    add(t, child, obj=s.t)          # "now", spelled as the clock object itself
+                else:
+                    add(t + d, child)
+        if obj is not None:
+            s.add_callback(obj, cb)
+            return
+        arg, mut = spelled(t, how)
+        s.add_callback(arg, cb)
+        if mut is not None:
+            poison(mut, 'add_callback(<%s array %r>)' % (how, t))
 
     obs = []
     hz = 0.0                    # the largest target an accepted evolve_until was given
@@ -83,17 +196,21 @@ def run_real(ops):
     for op in ops:
         if op[0] == 'kids':
             kids[op[1]] = [(float(d), int(c)) for d, c in op[2]]
+        elif op[0] == 'mode':
+            mode.add(op[1])
         elif op[0] == 'add':
             if float(op[1]) < hz:
                 adds_after_horizon = False
-            add(float(op[1]), int(op[2]))
+            add(float(op[1]), int(op[2]), how=(op[3] if len(op) > 3 else 'f'))
         elif op[0] == 'evolve':
             s.events = []
-            t0 = s.t
+            t0 = fl(s.t)
             n_sched0 = len(scheduled)
             status = 'ok'
+            how = op[2] if len(op) > 2 else 'f'
+            arg, mut = spelled(op[1], how)
             try:
-                s.evolve_until(float(op[1]))
+                s.evolve_until(arg)
             except ValueError:
                 status = 'value'
             except IndexError:
@@ -102,10 +219,16 @@ def run_real(ops):
                 status = 'other:' + type(e).__name__
             if status != 'value':
                 hz = max(hz, float(op[1]))
-            queue = sorted((q[0], q[1]) for q in s.callbacks)
-            obs.append({'T': float(op[1]), 'status': status, 't0': t0, 't1': s.t, 'ctr': s.callback_counter,
+            t1 = fl(s.t)
+            queue = sorted((fl(q[0]), q[1]) for q in s.callbacks)
+            if mut is not None:
+                poison(mut, 'evolve_until(<%s array %r>)' % (how, float(op[1])))
+            obs.append({'T': float(op[1]), 'status': status, 't0': t0, 't1': t1, 'ctr': s.callback_counter,
                         'events': list(s.events), 'queue': queue, 'scheduled': list(scheduled), 'n_sched0': n_sched0,
-                        'hz': hz, 'adds_after_horizon': adds_after_horizon})
+                        'hz': hz, 'adds_after_horizon': adds_after_horizon, 'alias': alias})
+            alias = []
+    if alias and obs:
+        obs[-1]['alias'] = obs[-1]['alias'] + alias
     return obs
 
 
@@ -149,6 +272,8 @@ def model_lines(ops):
             lines.append('C20 kids %d %s' % (op[1], ','.join('%s:%d' % (rat(d), c) for d, c in op[2])))
         elif op[0] == 'add':
             lines.append('C20 add %s %d' % (rat(op[1]), op[2]))
+        elif op[0] == 'mode':
+            continue            # how the times are spelled is invisible to the model: times are values
         else:
             idx.append(len(lines))
             lines.append('C20 evolve %s %d new' % (rat(op[1]), FUEL))
@@ -164,6 +289,8 @@ def oracle(obs):
     bad = []
     executed_before = set()
     for k, o in enumerate(obs):
+        # time arguments are values: the caller's later in-place changes of ITS array must not reach the system
+        bad.extend(o.get('alias', []))
         T = o['T']
         if T < o['t0']:
             if o['status'] != 'value':
@@ -232,6 +359,16 @@ DIRECTED = [
     ('horizon', [('add', 2.0, 0), ('evolve', 2.0), ('evolve', 2.0 + TINY), ('evolve', 2.0 + 8 * TINY)]),
     ('backwards', [('add', 3.0, 0), ('evolve', 1.0), ('evolve', 0.5), ('evolve', 4.0)]),
     ('child-now', [('kids', 0, [(0.0, 1)]), ('kids', 1, [(0.0, 2)]), ('add', 1.0, 0), ('add', 1.0, 2), ('evolve', 2.0)]),
+    # spellings of the time arguments and caller-owned arrays that are changed in place after the call
+    ('spelled', [('add', 0.25, 0), ('add', 0.75, 1), ('add', 0.75, 2), ('add', 1.25, 3), ('add', 2.0, 4), ('add', 9.0, 5)] +
+                [('evolve', 0.5 * k, '0ds') for k in range(1, 6)]),
+    ('spelled', [('add', 0.25, 0), ('add', 1.25, 1), ('add', 9.0, 2)] + [('evolve', 0.5 * k, '1ds') for k in range(1, 6)]),
+    ('spelled', [('add', 1.0, 0, '0d'), ('add', 2.0, 1, '1d'), ('add', 1.5, 2, '0ds'), ('add', 0.5, 3, '0ds'), ('evolve', 1.75, '0d'),
+                 ('add', 2.0, 4, 'ni'), ('evolve', 3.0, 'i'), ('evolve', 3.0, 'np'), ('evolve', 4.0, '1d')]),
+    ('spelled', [('mode', 'clockobj'), ('kids', 0, [(0.0, 1), (0.25, 0)]), ('kids', 1, [(0.0, 2)]), ('add', 0.5, 0, '1d'),
+                 ('evolve', 1.0, '1ds'), ('evolve', 1.0, '1ds'), ('evolve', 2.125, '1ds'), ('evolve', 1.0, '0d'), ('evolve', 3.0, '0ds')]),
+    ('spelled', [('mode', 'clockobj'), ('kids', 0, [(0.0, 1)]), ('add', 1.0, 0, '0d'), ('add', 1.0 + 3 * TINY, 1, '1d'),
+                 ('evolve', 1.0 + 5 * TINY, '1d'), ('add', 2.0, 0, 'np'), ('evolve', 2.0 + 2 * TINY, '0ds'), ('evolve', 3.0, '0ds')]),
 ]
 
 
@@ -267,13 +404,19 @@ def run(ctx):
                 'clock, #created, #executed, #pending, executed sequence over all evolutions and whether it is in order) '
                 'is compared with the model\'s `Hist` (the object of the history theorems), and the property clauses '
                 '(including order across evolve_until calls when no add was before the time already evolved to) are evaluated '
-                'directly on the observations. Non-trivial = at least one callback fired or several evolutions; '
+                'directly on the observations. The time arguments are spelled as float / int / NumPy scalar / 0-d array / '
+                '1-element array / one caller-owned array overwritten in place per call (about 5 of 7 random histories), the caller '
+                'changes its arrays in place right after each call and clock and queue (as floats) must not move; callbacks may pass '
+                'the clock object itself back into add_callback. Non-trivial = at least one callback fired or several evolutions; '
                 'distinct by (style, #ops, #fired, coalescing seen, statuses).')
     ctx.assumptions += ['heapq pops the least (time, counter) tuple', 'float arithmetic on the generated dyadic times is exact']
     n = ctx.scale(400, 6000)
     hist = [(s, o) for s, o in DIRECTED]
     for k in range(n):
-        hist.append(gen_history(ctx.rng, big=(ctx.tier == 'thorough' and k % 3 == 0)))
+        style, ops = gen_history(ctx.rng, big=(ctx.tier == 'thorough' and k % 3 == 0))
+        sp, ops = respell(ctx.rng, ops)
+        ctx.count('spelling:' + sp)
+        hist.append((style, ops))
     all_lines = []
     index = []
     observations = []
